@@ -415,7 +415,7 @@ def scan_trusted(A):
     A.trust_outside_prelude = [(k, c) for k, c in counts.items() if k[1] not in ("prelude",) and k[0] not in ()]
 
 
-def run_verus(A, outpath, rlimit=50, timeout=900, extra=()):
+def run_verus(A, outpath, rlimit=50, timeout=3600, extra=()):
     """Runs Verus on the assembled text. The result is memoised on the sha256 of that exact text (+ flags):
     the text is re-assembled from /repo on every run, only the solver call for byte-identical input is reused."""
     os.makedirs(os.path.dirname(outpath), exist_ok=True)
